@@ -138,7 +138,8 @@ func tokenize(filename string, in string) ([]*token, error) {
 	s.Filename = filename
 	for ch := s.Scan(); err == nil && ch != scanner.EOF; ch = s.Scan() {
 		// automatic semicolon insertion (Go specification, "Semicolons" rule 1)
-		if n := len(res); n > 0 && s.Position.Line > res[n-1].Pos.Line && endsStatement(res[n-1]) {
+		// (a raw string literal may span lines: the line that matters is the one it ends on)
+		if n := len(res); n > 0 && s.Position.Line > res[n-1].Pos.Line+strings.Count(res[n-1].Text, "\n") && endsStatement(res[n-1]) {
 			res = append(res, &token{Pos: res[n-1].Pos, Symbol: ";", Text: ";"})
 		}
 		if strings.ContainsRune(symChars, ch) {
